@@ -89,6 +89,43 @@ def _container(fn, v):
     return '[]'
 
 
+FRESH_CALLS = {'malloc', 'calloc', 'realloc', 'reallocarray', 'strdup', 'strndup'}
+
+
+def store_root_is_fresh(fn, ins):
+    """the stored-to address lies inside an object this function allocated itself
+    (it cannot alias memory that existed before the call)"""
+    v = ins.ops[1]
+    for _ in range(24):
+        if v.kind != 'reg':
+            return False
+        d = fn.defs.get(v.name)
+        if d is None:
+            return False
+        if d.op in ('getelementptr', 'bitcast'):
+            v = d.ops[0]
+            continue
+        if d.op == 'call':
+            return (d.callee_name() or '') in FRESH_CALLS
+        if d.op == 'phi':
+            # all incoming values fresh (ignoring self references)
+            outs = [x for x in d.ops if not (x.kind == 'reg' and x.name == v.name)]
+            if not outs:
+                return False
+            for x in outs:
+                if x.kind != 'reg':
+                    return False
+                dd = fn.defs.get(x.name)
+                while dd is not None and dd.op in ('bitcast', 'getelementptr'):
+                    y = dd.ops[0]
+                    dd = fn.defs.get(y.name) if y.kind == 'reg' else None
+                if dd is None or dd.op != 'call' or (dd.callee_name() or '') not in FRESH_CALLS:
+                    return False
+            return True
+        return False
+    return False
+
+
 def mod_sets(mods):
     """{function name: set of keys | None(=anything)} transitively"""
     funcs = {}
@@ -103,7 +140,7 @@ def mod_sets(mods):
         for ins in fn.instrs():
             if ins.op == 'store':
                 k = store_key(fn, ins)
-                if not k.startswith('local:'):
+                if not k.startswith('local:') and not store_root_is_fresh(fn, ins):
                     s.add(k)
             elif ins.op == 'call' and not ins.is_dbg():
                 cn = ins.callee_name()
